@@ -27,6 +27,25 @@ type Case struct {
 	Script  []rig.Action `json:"script"`
 	Path    string       `json:"path"` // pattern of the scripted GET route
 	History []HOp        `json:"history"`
+	// Via: the requests enter through the router itself, or through a Group the router was created in / added to
+	Via string `json:"via,omitempty"`
+}
+
+// build makes the router of one part and the handler the requests are sent to.
+func build(env *rig.Env, via, name string, o rig.Opts) (*rig.Router, http.Handler) {
+	switch via {
+	case "gnew":
+		g := env.NewGroup()
+		opts, _ := env.Options(o)
+		return &rig.Router{Router: g.New(name, nil, opts...), Env: env}, g
+	case "gadd":
+		g := env.NewGroup()
+		r := env.NewRouter(name, o)
+		g.Add(nil, r.Router)
+		return r, g
+	}
+	r := env.NewRouter(name, o)
+	return r, r
 }
 
 var (
@@ -58,6 +77,7 @@ func genScript(t *rapid.T) []rig.Action {
 
 func gen(t *rapid.T) Case {
 	c := Case{Trace: rapid.IntRange(0, 2).Draw(t, "trace") == 0, Script: genScript(t), Path: rapid.SampledFrom(patterns).Draw(t, "scriptPattern")}
+	c.Via = rapid.SampledFrom([]string{"", "", "gnew", "gadd"}).Draw(t, "via")
 	if rapid.IntRange(0, 3).Draw(t, "recover") == 0 {
 		c.Recover = true
 		if rapid.Bool().Draw(t, "scriptPanics") {
@@ -137,7 +157,10 @@ func check(c Case, st *rig.Stats) error {
 			extra = append(extra, mux.WithStatusRecovery(500))
 			classes = append(classes, "router-with-status-recovery")
 		}
-		r := env.NewRouter("r", rig.Opts{Trace: c.Trace, Extra: extra})
+		r, front := build(env, c.Via, "r", rig.Opts{Trace: c.Trace, Extra: extra})
+		if c.Via != "" {
+			classes = append(classes, "served-through-a-group:"+c.Via)
+		}
 		h := env.NewH(c.Script...)
 		if len(c.Script) == 0 {
 			h.Script = []rig.Action{} // an empty script writes nothing at all
@@ -145,8 +168,8 @@ func check(c Case, st *rig.Stats) error {
 		}
 		r.Handle(c.Path, h, nil, "GET")
 		path := witness[c.Path]
-		g := rig.Serve(r, rig.Req{Method: "GET", Path: path})
-		hd := rig.Serve(r, rig.Req{Method: "HEAD", Path: path})
+		g := rig.Serve(front, rig.Req{Method: "GET", Path: path})
+		hd := rig.Serve(front, rig.Req{Method: "HEAD", Path: path})
 		if g.Panicked || hd.Panicked {
 			return rig.Violf("panic", "GET panicked=%v HEAD panicked=%v (%v)", g.Panicked, hd.Panicked, hd.PanicVal)
 		}
@@ -209,7 +232,7 @@ func check(c Case, st *rig.Stats) error {
 	}
 
 	// Part B: HEAD follows GET, OPTIONS is automatic, reserved and unknown methods are refused
-	r := env.NewRouter("r", rig.Opts{Trace: c.Trace})
+	r, front := build(env, c.Via, "r", rig.Opts{Trace: c.Trace})
 	m := ref.NewTable(c.Trace)
 	getRemoved := map[string]bool{}
 	for i, op := range c.History {
@@ -250,8 +273,8 @@ func check(c Case, st *rig.Stats) error {
 		}
 		for _, p := range patterns {
 			path := witness[p]
-			hd := rig.Serve(r, rig.Req{Method: "HEAD", Path: path})
-			op2 := rig.Serve(r, rig.Req{Method: "OPTIONS", Path: path})
+			hd := rig.Serve(front, rig.Req{Method: "HEAD", Path: path})
+			op2 := rig.Serve(front, rig.Req{Method: "OPTIONS", Path: path})
 			if hd.Panicked || op2.Panicked {
 				return rig.Violf("panic", "%s: HEAD/OPTIONS %q panicked: %v %v", when, path, hd.PanicVal, op2.PanicVal)
 			}
@@ -269,7 +292,7 @@ func check(c Case, st *rig.Stats) error {
 					return rig.Violf("head-without-get", "%s: %q has no GET (methods %v) but HEAD %q ran %s(%s)", when, p, m.AllowSet(p), path, hd.BaseID, hd.BaseKind)
 				}
 			default:
-				if hd.BaseKind != "404" {
+				if hd.BaseKind != "404" && !(c.Via == "gnew" && hd.BaseKind == "gnf") { // a router made by Group.New answers 404 with the group's handler
 					return rig.Violf("head-on-dead-route", "%s: %q is not registered but HEAD %q ran %s(%s)", when, p, path, hd.BaseID, hd.BaseKind)
 				}
 			}
@@ -277,7 +300,7 @@ func check(c Case, st *rig.Stats) error {
 				if op2.BaseKind != "options" || op2.Pattern != p {
 					return rig.Violf("options-not-automatic", "%s: %q is live (methods %v) but OPTIONS %q ran %s(%s) on %q", when, p, m.AllowSet(p), path, op2.BaseID, op2.BaseKind, op2.Pattern)
 				}
-			} else if op2.BaseKind != "404" {
+			} else if op2.BaseKind != "404" && !(c.Via == "gnew" && op2.BaseKind == "gnf") {
 				return rig.Violf("options-on-dead-route", "%s: %q is not registered but OPTIONS %q ran %s(%s)", when, p, path, op2.BaseID, op2.BaseKind)
 			}
 		}
